@@ -88,6 +88,24 @@ def pureWallet : List String → Option String
       let seed ← ofHex seed
       let i ← i.toNat?
       runDerive seed (indexPath i) rest
+  | ["wl-step", key, chain, i, msg, out] => do
+      let key ← ofHex key
+      let chain ← ofHex chain
+      let i ← i.toNat?
+      let msg ← ofHex msg
+      let out ← ofHex out
+      -- the input the model hashes must be the input the harness hashed
+      if (Query.child chain key i).msg ≠ msg then pure "query-mismatch" else
+      let C : CryptoFns := { nullFns with hmac := lookup2 [(chain, msg, out)] }
+      match derive C ⟨key, chain⟩ i with
+      | .error e => pure ("err " ++ e.show)
+      | .ok k => pure s!"ok {showHex k.key} {showHex k.chain}"
+  | ["wl-master", seed, out] => do
+      let seed ← ofHex seed
+      let out ← ofHex out
+      let C : CryptoFns := { nullFns with hmac := lookup2 [(Gen.seedModifier, seed, out)] }
+      let k := newMasterKey C seed
+      pure s!"{showHex k.key} {showHex k.chain}"
   | ["wl-sign", key, msg, pub, sig, indep] => do
       let key ← ofHex key
       let msg ← ofHex msg
